@@ -13,8 +13,8 @@ import (
 	"encoding/json"
 	"fmt"
 	"math/rand"
-	"path"
 	"os"
+	"path"
 	"path/filepath"
 	"strings"
 	"time"
@@ -100,8 +100,8 @@ func init() {
 		},
 		DriverOp:   "applyInclude",
 		DriverArgs: argsWithHome,
-		Judge:    judgeModel,
-		Timeout:  60 * time.Second,
+		Judge:      judgeModel,
+		Timeout:    60 * time.Second,
 	})
 	core.Register("c06.applySource", &core.CheckDef{
 		Real: func(raw json.RawMessage) any {
@@ -114,7 +114,7 @@ func init() {
 		DriverOp:   "applyInclude",
 		DriverArgs: argsWithHome,
 		Judge:      judgeSource,
-		Timeout:  60 * time.Second,
+		Timeout:    60 * time.Second,
 	})
 	core.Register("c06.paste", &core.CheckDef{
 		Real: func(raw json.RawMessage) any {
@@ -126,6 +126,29 @@ func init() {
 		},
 		Judge:   judgePaste,
 		Timeout: 60 * time.Second,
+	})
+	core.Register("c06.envFromFile", &core.CheckDef{
+		Real: func(raw json.RawMessage) any {
+			var a c06lib.EnvFileArgs
+			if err := json.Unmarshal(raw, &a); err != nil {
+				return map[string]any{"bad": err.Error()}
+			}
+			return c06lib.RealEnvFromFile(a)
+		},
+		DriverOp: "envFromFile",
+		Judge:    judgeModel,
+		Timeout:  20 * time.Second,
+	})
+	core.Register("c06.cloneOptions", &core.CheckDef{
+		Real: func(raw json.RawMessage) any {
+			var a c06lib.CloneArgs
+			if err := json.Unmarshal(raw, &a); err != nil {
+				return map[string]any{"bad": err.Error()}
+			}
+			return c06lib.RealClone(a)
+		},
+		DriverOp: "cloneOptions",
+		Timeout:  10 * time.Second,
 	})
 	core.RegisterProp("C06", runC06)
 }
@@ -571,6 +594,19 @@ func randomApply(ctx *core.Ctx, depth int) c06lib.ApplyArgs {
 // ---------------------------------------------------------------- streams
 
 func runC06(ctx *core.Ctx) {
+	// development aid: VERIF_C06_ONLY=<stream> runs one stream (never set by ./check)
+	switch os.Getenv("VERIF_C06_ONLY") {
+	case "options":
+		streamPasteOptions(ctx)
+		return
+	case "missingpd":
+		streamPasteMissingProjDir(ctx)
+		return
+	case "envfile":
+		streamEnvFromFile(ctx)
+		streamCloneOptions(ctx)
+		return
+	}
 	streamFpath(ctx)
 	streamIncludeConfig(ctx)
 	streamImport(ctx)
@@ -583,6 +619,105 @@ func runC06(ctx *core.Ctx) {
 	streamApplyMalformed(ctx)
 	streamApplySourceKinds(ctx)
 	streamPaste(ctx)
+	streamPasteOptions(ctx)
+	streamPasteMissingProjDir(ctx)
+	streamEnvFromFile(ctx)
+	streamCloneOptions(ctx)
+}
+
+// streamEnvFromFile: dotenv.GetEnvFromFile vs Include.getEnvFromFile — every list of ≤ 2 (thorough: ≤ 3) names over a pool
+// of regular files (plain values, references to the current environment / an earlier file / the same file, defaults),
+// a directory, a missing file, a path through a regular file, a relative name, × four current environments.
+func streamEnvFromFile(ctx *core.Ctx) {
+	s := c06lib.NewScen()
+	s.AddEnv("a.env", [][]string{{"V", "a"}, {"W", "aw-${V}"}})
+	s.AddEnv("b.env", [][]string{{"W", "b"}, {"X", "${W}-${V:-nov}"}})
+	s.AddEnv("sub/.env", [][]string{{"V", "${NOPE:-dflt}"}, {"Y", "y-${X:-nox}-${W-now}"}})
+	s.AddEnv("e.env", [][]string{})
+	s.AddEnv("bad.env", [][]string{{"V", "${W"}})
+	s.AddDir("dir")
+	pool := []string{c06lib.Root + "/a.env", c06lib.Root + "/b.env", c06lib.Root + "/sub/.env", c06lib.Root + "/e.env", c06lib.Root + "/bad.env",
+		c06lib.Root + "/dir", c06lib.Root + "/missing.env", c06lib.Root + "/a.env/x", "rel.env", c06lib.Root + "/sub/../b.env"}
+	kind := map[string]string{c06lib.Root + "/dir": "dir", c06lib.Root + "/missing.env": "missing", c06lib.Root + "/a.env/x": "through-file", "rel.env": "relative",
+		c06lib.Root + "/bad.env": "bad-template", c06lib.Root + "/e.env": "empty-file", c06lib.Root + "/sub/../b.env": "unclean-name"}
+	curs := []map[string]string{{}, {"V": "pv"}, {"V": "pv", "W": "pw", "X": "px"}, {"W": ""}}
+	add := func(names []string, cur map[string]string) {
+		ctx.Count(fmt.Sprintf("envFromFile:files=%d", len(names)))
+		for _, n := range names {
+			k := kind[n]
+			if k == "" {
+				k = "regular"
+			}
+			ctx.Count("envFromFile-name:" + k)
+		}
+		ctx.Add("c06.envFromFile", c06lib.EnvFileArgs{Files: s.Files, Dirs: s.Dirs, Envs: s.Envs, Docs: map[string][]any{}, Cur: cur, Names: append([]string{}, names...)})
+	}
+	for _, cur := range curs {
+		add(nil, cur)
+		for _, a := range pool {
+			add([]string{a}, cur)
+			for _, b := range pool {
+				add([]string{a, b}, cur)
+				if ctx.Thorough() {
+					for _, c := range pool {
+						add([]string{a, b, c}, cur)
+					}
+				}
+			}
+		}
+	}
+	for i := 0; i < ctx.Pick(400, 4000); i++ {
+		n := 3 + ctx.Rng.Intn(2)
+		var names []string
+		for j := 0; j < n; j++ {
+			// mostly regular files, so that long lists reach the later iterations of the loop
+			if ctx.Rng.Intn(5) == 0 {
+				names = append(names, pool[ctx.Rng.Intn(len(pool))])
+			} else {
+				names = append(names, pool[ctx.Rng.Intn(4)])
+			}
+		}
+		add(names, curs[ctx.Rng.Intn(len(curs))])
+	}
+}
+
+// streamCloneOptions: Options.clone() vs Opts.clone — every single flag, every pair, all / none, random sets
+// (thorough: all 4096 flag sets), with and without profiles / project name.
+func streamCloneOptions(ctx *core.Ctx) {
+	flags := c06lib.OptionFlags
+	add := func(mask int, variant int) {
+		a := c06lib.CloneArgs{Flags: map[string]bool{}, Profiles: []string{}}
+		for i, f := range flags {
+			a.Flags[f] = mask&(1<<i) != 0
+		}
+		if variant&1 != 0 {
+			a.Profiles = []string{"dbg", "x"}
+		}
+		if variant&2 != 0 {
+			a.ProjectName = "proj"
+		}
+		ctx.Count("cloneOptions")
+		ctx.Add("c06.cloneOptions", a)
+	}
+	n := len(flags)
+	if ctx.Thorough() {
+		for m := 0; m < 1<<n; m++ {
+			add(m, m%4)
+		}
+		return
+	}
+	add(0, 0)
+	add(1<<n-1, 3)
+	for i := 0; i < n; i++ {
+		add(1<<i, i%4)
+		add((1<<n-1)&^(1<<i), (i+1)%4)
+		for j := i + 1; j < n; j++ {
+			add(1<<i|1<<j, (i+j)%4)
+		}
+	}
+	for i := 0; i < 200; i++ {
+		add(ctx.Rng.Intn(1<<n), ctx.Rng.Intn(4))
+	}
 }
 
 func streamFpath(ctx *core.Ctx) {
@@ -1180,4 +1315,90 @@ func streamPaste(ctx *core.Ctx) {
 		ctx.Count("paste:" + class)
 		ctx.Add("c06.paste", pasteArgs(g, "compose.yaml", []c06lib.Entry{{Paths: []string{"sub/inc.yaml"}, ProjDir: "sub"}}, nil, "paste", class))
 	}
+
+}
+
+// streamPasteOptions is stream 6 of the paste oracle.
+func streamPasteOptions(ctx *core.Ctx) {
+	// 6. loader options: the included project is loaded with a *clone* of the caller's options (ResolvePaths,
+	//    SkipNormalization, SkipConsistencyCheck forced).  Paste equivalence must hold under every option set: each
+	//    option is made observable by an attribute of the included file that the corresponding stage would change.
+	//    (exhaustive over the 2^7 flag sets × ±profiles on one probe tree, nested once; + random partitions below)
+	for mask := 0; mask < 256; mask++ {
+		o := pasteOptsOf(mask)
+		for nest := 0; nest < 2; nest++ {
+			if nest == 1 && mask%3 != 0 && !ctx.Thorough() {
+				continue
+			}
+			g := newGen(ctx, true)
+			probe := map[string]any{
+				"services": map[string]any{
+					"base": map[string]any{"image": "base-${V:-unset}", "labels": map[string]any{"from": "base"}},
+					// interpolation, defaults (build.context, ports), extends, profiles, environment resolution
+					"b": map[string]any{"extends": map[string]any{"service": "base"}, "build": map[string]any{"dockerfile": "Dockerfile.b"},
+						"ports": []any{"8080:80"}, "environment": []any{"V", "K=${W:-w}"}},
+					"dbg": map[string]any{"image": "dbg", "profiles": []any{"dbg"}, "volumes": []any{"./data:/data"}},
+				},
+				"volumes":  map[string]any{"vol": map[string]any{"labels": map[string]any{"l": "${V:-unset}"}}},
+				"networks": map[string]any{"net": nil},
+				"secrets":  map[string]any{"sec": map[string]any{"environment": "V"}},
+				"configs":  map[string]any{"cfg": map[string]any{"file": "./c.txt"}},
+			}
+			ents := []c06lib.Entry{{Paths: []string{"sub/inc.yaml"}, ProjDir: "sub"}}
+			if nest == 0 {
+				g.s.AddYAML("sub/inc.yaml", mask%2, probe)
+			} else {
+				g.s.AddYAML("sub/deep/d.yaml", mask%2, probe)
+				g.s.AddYAML("sub/inc.yaml", 0, map[string]any{"include": []any{"deep/d.yaml"}, "services": map[string]any{"mid": svc("mid-${V:-unset}")}})
+			}
+			g.s.AddYAML("compose.yaml", 0, map[string]any{"include": []any{"sub/inc.yaml"}, "services": map[string]any{"a": map[string]any{"image": "a-${V:-unset}", "build": map[string]any{"dockerfile": "Dockerfile.a"}}}})
+			ctx.Count("paste:options=" + o.Name())
+			a := pasteArgs(g, "compose.yaml", ents, map[string]string{"V": "pv"}, "paste", "options")
+			a.Opts = o
+			ctx.Add("c06.paste", a)
+		}
+	}
+	for i := 0; i < ctx.Pick(300, 4000); i++ {
+		g := newGen(ctx, true)
+		depth := 1 + ctx.Rng.Intn(3)
+		doc, entries := g.project("compose.yaml", "", depth, []string{"compose.yaml"}, true)
+		if len(entries) == 0 {
+			continue
+		}
+		g.s.AddYAML("compose.yaml", 0, doc)
+		o := pasteOptsOf(ctx.Rng.Intn(256))
+		ctx.Count("paste:options-partition")
+		ctx.Count("paste-options:" + o.Name())
+		a := pasteArgs(g, "compose.yaml", entries, c06Envs[ctx.Rng.Intn(len(c06Envs))], "paste", "options-partition")
+		a.Opts = o
+		ctx.Add("c06.paste", a)
+	}
+}
+
+// streamPasteMissingProjDir: a relative project_directory that is not an existing directory (absent, or a regular
+// file).  localResourceLoader.Dir answers the parent of such a path: the included model's paths are resolved against
+// the parent, not against the declared project directory  (finding, see findings/C06.txt and Neg/C06.lean).
+func streamPasteMissingProjDir(ctx *core.Ctx) {
+	for variant := 0; variant < 8; variant++ {
+		g := newGen(ctx, true)
+		pd := []string{"nodir", "deep/nodir"}[variant/4]
+		if variant%2 == 1 {
+			g.s.Files[pd] = "a regular file\n"
+		}
+		inc := map[string]any{"services": map[string]any{"b": map[string]any{"image": "b", "build": map[string]any{"context": "./ctx"}}}}
+		g.s.AddYAML("sub/inc.yaml", variant/2%2, inc)
+		g.s.AddYAML("compose.yaml", 0, map[string]any{"include": []any{map[string]any{"path": "sub/inc.yaml", "project_directory": pd}}, "services": map[string]any{"a": svc("a")}})
+		ctx.Count("paste:missing-project_directory")
+		ctx.Add("c06.paste", pasteArgs(g, "compose.yaml", []c06lib.Entry{{Paths: []string{"sub/inc.yaml"}, ProjDir: pd}}, nil, "paste", "missing-project_directory"))
+	}
+}
+
+// pasteOptsOf decodes a bit mask into an option set of the paste oracle.
+func pasteOptsOf(mask int) *c06lib.PasteOpts {
+	o := &c06lib.PasteOpts{SkipInterpolation: mask&1 != 0, SkipDefaultValues: mask&2 != 0, SkipExtends: mask&4 != 0, SkipResolveEnvironment: mask&8 != 0,
+		SkipNormalization: mask&16 != 0, SkipConsistencyCheck: mask&32 != 0, SkipValidation: mask&64 != 0}
+	if mask&128 != 0 {
+		o.Profiles = []string{"dbg"}
+	}
+	return o
 }
